@@ -655,18 +655,21 @@ impl<K: Kmer, D: Debug> DebruijnGraph<K, D> {
         writeln!(writer, "],").unwrap();
 
         writeln!(writer, "\"links\": [").unwrap();
+        // a comma separates the link groups of two nodes; none follows the last group
+        let mut wrote_links = false;
         for i in 0..self.len() {
             let node = self.get_node(i);
-            match node.edges_to_json(writer) {
-                true => {
-                    if i == self.len() - 1 {
-                        writeln!(writer).unwrap();
-                    } else {
-                        writeln!(writer, ",").unwrap();
-                    }
-                }
-                _ => continue,
+            if node.r_edges().is_empty() {
+                continue;
             }
+            if wrote_links {
+                writeln!(writer, ",").unwrap();
+            }
+            node.edges_to_json(writer);
+            wrote_links = true;
+        }
+        if wrote_links {
+            writeln!(writer).unwrap();
         }
         writeln!(writer, "]").unwrap();
 
